@@ -529,7 +529,10 @@ def _error_rules(ck: Checker) -> None:
     ok = False
     for h in rep:
         body = [x for x in ga.nodes.values() if h.id in x.loops and x.id != h.id]
-        ok = any(isinstance(c.func, ast.Name) and c.func.id == "onerror" for x in body for c in calls_at(x))
+        # the caller's callback, possibly under another local name (`report = noop if onerror is None else onerror`)
+        cbs = {"onerror"} | {t_.id for a_ in walk_own(ap.node) if isinstance(a_, ast.Assign) for t_ in a_.targets if isinstance(t_, ast.Name)
+                              and any(isinstance(x_, ast.Name) and x_.id == "onerror" for x_ in walk_expr(a_.value))}
+        ok = any(isinstance(c.func, ast.Name) and c.func.id in cbs for x in body for c in calls_at(x))
     ck.require(ok, "C09.errors", ap, rep[0] if rep else ap.node, "every failed directory load is reported through onerror", "apply() does not report diff.dirs_failed through onerror")
     if rep:
         w = avoiding_path(ga, ga.exit, lambda x: x.id == rep[0].id)
